@@ -177,6 +177,26 @@ func (pc *PeerConnection) VerifC30StartRTPReceivers() {
 	})
 }
 
+// VerifC30PrepareStartRTPReceivers captures what SetLocalDescription(answer) /
+// SetRemoteDescription(answer) capture for startRTP (the remote description
+// and the transceivers at that moment) and returns the function that queues
+// startRTPReceivers with them. In production that operation waits behind
+// startTransports until ICE and DTLS are up, so further negotiation can happen
+// before it runs; the harness decides when to call the returned function.
+func (pc *PeerConnection) VerifC30PrepareStartRTPReceivers() func() {
+	remote := pc.RemoteDescription()
+	if remote == nil || remote.parsed == nil {
+		return func() {}
+	}
+	current := append([]*RTPTransceiver{}, pc.GetTransceivers()...)
+
+	return func() {
+		pc.ops.Enqueue(func() {
+			pc.startRTPReceivers(remote, current)
+		})
+	}
+}
+
 // VerifC30StartRTPReceiversWith runs startRTPReceivers synchronously for a
 // parsed description which is first installed as the current remote
 // description (no signalling checks).
